@@ -60,4 +60,5 @@ c4bdc93 C12
 3a4230f C11
 80a8a29 C11
 b33e5d2 C15
+4285d0b C12
 LIST
